@@ -242,7 +242,9 @@ func arrayExecMerge(ar *Array, values []r.Element) (r.Element, error) {
 	// update new array
 	ar.value = result
 
-	return NewArray(result), nil
+	// like 后增 / 前增, the method yields the list it has just changed (a second list object
+	// over the same storage would follow some later changes of the receiver and not others)
+	return ar, nil
 }
 
 func arrayExecContains(ar *Array, values []r.Element) (r.Element, error) {
